@@ -73,6 +73,9 @@ func jdocShape(doc *ON) *shapeErr {
 		return se("top-not-object", "the document is not a JSON object")
 	}
 	if p := doc.DupKey(""); p != "" {
+		if strings.ContainsRune(p, '\uFFFD') {
+			return se("duplicate-key:names-collide-after-utf8-replacement", "a key is emitted twice at %s", p)
+		}
 		return se("duplicate-key", "a key is emitted twice at %s", p)
 	}
 	// exact key set and order
